@@ -261,6 +261,20 @@ def run(ctx):
     args = ["-seed", str(ctx.seed)]
     args += ["-n", "3000", "-exhaust", "4", "-exhaustp", "2"] if thorough else ["-n", "250", "-exhaust", "2", "-exhaustp", "1"]
     rows, trailer = hlex(args)
+    # concurrency: GOMAXPROCS+2 lexers pending after one token each, further statements lexed to the end meanwhile,
+    # then an interleaved drain; verdicts about receives that cannot complete come from the goroutine dump (h_lex/conc.go)
+    crows, _ = hlex(["-conc", "-seed", str(ctx.seed)], timeout=600)
+    conc_hangs = []
+    for r in crows:
+        hg = r.get("hang", "")
+        if hg.startswith("deadlock") or hg.startswith("endless"):
+            conc_hangs.append(r)
+        elif hg:
+            ctx.notes.append("conc: " + hg)
+        else:
+            rows.append(r)          # complete token list: structure + model comparison like every other case
+    ctx.cov["concurrent_lexers"] = {"opened": len(crows), "complete_and_closed": sum(1 for r in crows if r["closed"] and not r.get("hang")),
+                                    "capacities": [0, 2, 5]}
     findings = {f.get("id"): f for f in vcheck.known_findings("C16")}
 
     nviol = {}
@@ -270,6 +284,9 @@ def run(ctx):
             ctx.violation(obj)
     ctx.cov["violations_by_kind"] = nviol
 
+    for r in conc_hangs:
+        violation({"kind": "structure", "what": "with GOMAXPROCS+2 lexers pending, lexer.New does not deliver / close: " + r["hang"],
+                   "case": r})
     # 1. structure on the implementation
     for r in rows:
         p = structure_problem(r)
@@ -402,6 +419,12 @@ def search(ctx, broken):
         p = structure_problem(r)
         if p:
             return {"what": p, "case": r}
+    try:
+        for r in hlex(["-conc", "-seed", str(ctx.seed)], timeout=600)[0]:
+            if r.get("hang", "").startswith(("deadlock", "endless")):
+                return {"what": "concurrent lexers: " + r["hang"], "case": r}
+    except Exception:
+        pass
     findings = {f.get("id"): f for f in vcheck.known_findings("C16")}
     for r in rows:
         if r["of"] >= 0:
